@@ -583,8 +583,217 @@ theorem tsv_roundtrip_any_line_ends (io : NumIO α) (fmtMd : μ → Text) (proc 
 
 end roundtrip
 
+/-! ### `biom convert`: load without a processing function, process afterwards -/
+
+section cli
+variable [Zero α] [DecidableEq α]
+
+/-- applying the processing function while importing = importing raw and processing afterwards -/
+theorem fromTsv_proc (io : NumIO α) (proc : Text → ν) (lines : List Text) :
+    fromTsv io proc lines =
+      match fromTsv io (fun s => s) lines with
+      | .error e => .error e
+      | .ok t => .ok { obs := t.obs, samp := t.samp, rows := t.rows,
+                       omd := t.omd.map (·.map (fun p => (p.1, proc p.2))) } := by
+  simp only [fromTsv]
+  cases extractData io lines with
+  | error e => rfl
+  | ok x =>
+    simp only
+    split
+    · rfl
+    · split
+      · rfl
+      · cases x.md <;> cases x.mdName <;> simp [List.map_map, Function.comp_def]
+
+/-- `biom convert` of the exported text (plain or gzip, any blank line ends) with
+`--process-obs-metadata` given exactly when a category was exported: same IDs, grid and category. -/
+theorem cli_roundtrip [DecidableEq μ] (io : NumIO α) (fmtMd : μ → Text) (ident proc : Text → μ)
+    (e : Export α μ) (hg : guardB io fmtMd proc e = true) :
+    ∃ lines, toTsv io fmtMd e = .ok lines ∧
+      ∀ lines', EolRel lines lines' → cliImport io ident proc (exported e) lines' = .ok (expected e) := by
+  obtain ⟨lines, h1, h2⟩ := import_export io fmtMd proc e hg
+  refine ⟨lines, h1, fun lines' hr => ?_⟩
+  have h3 := h2 lines' hr
+  rw [fromTsv_proc] at h3
+  simp only [cliImport]
+  cases hf : fromTsv io (fun s => s) lines' with
+  | error err => rw [hf] at h3; cases h3
+  | ok t =>
+    rw [hf] at h3
+    simp only [Except.ok.injEq] at h3
+    by_cases hx : exported e = true
+    · have homd : t.omd.isNone = false := by
+        have := congrArg Imported.omd h3
+        simp only [expected, reimported, hx, if_true] at this
+        cases ht : t.omd with
+        | none =>
+          rw [ht] at this
+          simp only [exported, Bool.and_eq_true] at hx
+          cases hm : e.md with
+          | none => rw [hm] at hx; simp at hx
+          | some ms => rw [hm] at this; simp at this
+        | some l => rfl
+      simp only [hx, if_true, homd, Bool.false_eq_true, if_false]
+      exact congrArg _ h3
+    · have hx' : exported e = false := by simpa using hx
+      have homd : t.omd = none := by
+        have := congrArg Imported.omd h3
+        simp only [expected, reimported, hx', Bool.false_eq_true, if_false] at this
+        cases ht : t.omd with
+        | none => rfl
+        | some l => rw [ht] at this; simp at this
+      simp only [hx', Bool.false_eq_true, if_false]
+      rw [← h3, homd]
+      rfl
+
+end cli
+
 /-- the text returned by `to_tsv` is the lines joined with '\n'; splitting it at '\n' gives the lines back -/
 theorem lines_of_text (lines : List Text) (h : ∀ l ∈ lines, '\n' ∉ l) (hne : lines ≠ []) :
     split '\n' (toText lines) = lines := split_join '\n' lines h hne
+
+/-! ### the formatter / processing pairs of `biom convert` are inverse on the guarded values -/
+
+/-- an element of a hierarchical list: non-empty, no ';', no blank at either end -/
+structure ElemOk (x : Text) : Prop where
+  ne : x ≠ []
+  noSemi : ';' ∉ x
+  noLead : NoLead x
+  noTrail : NoTrail x
+
+theorem joinS_as_join (pre g : Text) (fs : List Text) :
+    pre ++ joinS "; ".toList (g :: fs) = join ';' ((pre ++ g) :: fs.map (' ' :: ·)) := by
+  induction fs generalizing pre g with
+  | nil => simp [joinS, join]
+  | cons f fs ih =>
+    have this' : ' ' :: joinS "; ".toList (f :: fs) = join ';' ((' ' :: f) :: fs.map (' ' :: ·)) := by
+      simpa using ih [' '] f
+    have hs : "; ".toList = [';', ' '] := by decide
+    simp only [joinS, List.map_cons, join]
+    rw [← this', hs]
+    simp
+
+theorem strip_space_cons (x : Text) (h : ElemOk x) : strip (' ' :: x) = x := by
+  have h1 : rstrip (' ' :: x) = ' ' :: x := rstrip_of_noTrail _ (noTrail_cons ' ' x h.ne h.noTrail)
+  have h2 : ws ' ' = true := by decide
+  simp only [strip, h1, lstrip, List.dropWhile, h2]
+  exact lstrip_of_noLead x h.noLead
+
+/-- `[e.strip() for e in ('; '.join(xs)).strip().split(';')] = xs` -/
+theorem sc_separated_inverse (xs : List Text) (hne : xs ≠ []) (h : ∀ x ∈ xs, ElemOk x) :
+    procSc (strip (fmtSc (.list xs))) = .list xs := by
+  cases xs with
+  | nil => exact absurd rfl hne
+  | cons g fs =>
+    have hg := h g (List.mem_cons_self ..)
+    have hj := joinS_as_join [] g fs
+    simp only [List.nil_append] at hj
+    -- the joined text has no blank at either end
+    have hlead : NoLead (joinS "; ".toList (g :: fs)) := by
+      rw [hj]
+      cases fs with
+      | nil => simpa [join] using hg.noLead
+      | cons f fs' =>
+        rw [List.map_cons, join_cons_ne_nil ';' g _ (List.cons_ne_nil _ _)]
+        exact noLead_append g _ hg.ne hg.noLead
+    have htrail : NoTrail (joinS "; ".toList (g :: fs)) := by
+      rw [hj]
+      cases fs with
+      | nil => simpa [join] using hg.noTrail
+      | cons f fs' =>
+        have hne2 : (f :: fs').map (' ' :: ·) ≠ [] := by simp
+        rw [join_cons_ne_nil ';' g _ hne2]
+        obtain ⟨p, hp⟩ := join_ends ';' g _ hne2
+        rw [hp]
+        have hl := List.getLast_mem hne2
+        obtain ⟨x, hx, hxe⟩ := List.mem_map.mp hl
+        rw [← hxe]
+        have hxo := h x (List.mem_cons_of_mem _ hx)
+        exact noTrail_append p _ (List.cons_ne_nil _ _)
+          (noTrail_cons _ _ (List.cons_ne_nil _ _) (noTrail_cons _ _ hxo.ne hxo.noTrail))
+    simp only [procSc, fmtSc, strip_of_clean _ hlead htrail]
+    rw [hj, split_join ';' _ ?_ (List.cons_ne_nil _ _)]
+    · simp only [List.map_cons, strip_of_clean g hg.noLead hg.noTrail, List.map_map]
+      congr 2
+      have : ∀ l : List Text, (∀ x ∈ l, ElemOk x) → l.map (strip ∘ (fun x => ' ' :: x)) = l := by
+        intro l hl
+        induction l with
+        | nil => rfl
+        | cons a l ih =>
+          simp only [List.map_cons, Function.comp_apply, strip_space_cons a (hl a (List.mem_cons_self ..)),
+            ih (fun x hx => hl x (List.mem_cons_of_mem _ hx))]
+      exact this fs (fun x hx => h x (List.mem_cons_of_mem _ hx))
+    · intro f hf
+      rcases List.mem_cons.mp hf with e | hf
+      · exact e ▸ hg.noSemi
+      · obtain ⟨x, hx, rfl⟩ := List.mem_map.mp hf
+        have hxo := h x (List.mem_cons_of_mem _ hx)
+        intro hm
+        rcases List.mem_cons.mp hm with e | hm
+        · exact absurd e (by decide)
+        · exact hxo.noSemi hm
+
+theorem naive_inverse (s : Text) (h1 : NoLead s) (h2 : NoTrail s) :
+    procNaive (strip (fmtNaive (.text s))) = .text s := by
+  simp [procNaive, fmtNaive, strip_of_clean s h1 h2]
+
+/-! ### closed instances: the guard is necessary, and it is satisfiable -/
+
+/-- a three-value instance of the external number functions, for closed examples -/
+def toyIO : NumIO Nat where
+  fmt v := if v = 0 then "0.0".toList else if v = 1 then "1.0".toList else "2.5e-07".toList
+  parse s := if s = "0.0".toList then some 0 else if s = "1.0".toList then some 1
+             else if s = "2.5e-07".toList then some 2 else none
+
+def witnessTable : Export Nat Text :=
+  { obs := ["O1".toList], samp := ["S1".toList], rows := [[2]], md := some ["1.0".toList],
+    headerKey := some "taxonomy".toList, headerValue := some "taxonomy".toList }
+
+/-- A metadata column whose every text parses as a number IS misread: the table meets every other
+hypothesis (IDs, shape, float text, tab-free metadata, inverse processing function), yet the
+re-imported table has a second sample called "taxonomy" holding the metadata as a value and no
+metadata — so the guard "the formatted text is not parseable as a number" cannot be dropped. -/
+theorem numeric_md_witness :
+    tableOkB toyIO witnessTable = true ∧
+    mdOkB toyIO id id witnessTable = false ∧
+    (roundTrip toyIO id id [] witnessTable).toOption =
+      some { obs := ["O1".toList], samp := ["S1".toList, "taxonomy".toList], rows := [[2, 1]], omd := none } ∧
+    holds witnessTable (roundTrip toyIO id id [] witnessTable) = false := by
+  decide
+
+/-- the same table with one text that is not a number comes back intact -/
+example :
+    let e : Export Nat Text := { witnessTable with md := some ["k__A; p__b".toList] }
+    guardB toyIO id id e = true ∧
+    (roundTrip toyIO id id ['\n'] e).toOption =
+      some { obs := ["O1".toList], samp := ["S1".toList], rows := [[2]],
+             omd := some [("taxonomy".toList, "k__A; p__b".toList)] } := by
+  decide
+
+/-- non-vacuity: a 2 x 3 table with inner blanks, a '#' inside an ID and numeric-looking IDs meets the guard -/
+example :
+    guardB toyIO (fun (x : Text) => x) (fun s => s)
+      { obs := ["O 1".toList, "10".toList], samp := ["a#b".toList, "2.5".toList, "é".toList],
+        rows := [[0, 1, 2], [2, 0, 0]] } = true := by
+  decide
+
+/-- non-vacuity: a single observation, a single sample, an all-zero grid -/
+example :
+    guardB toyIO (fun (x : Text) => x) (fun s => s)
+      { obs := ["O1".toList], samp := ["S1".toList], rows := [[0]] } = true ∧
+    guardB toyIO (fun (x : Text) => x) (fun s => s)
+      { obs := ["O1".toList, "O2".toList, "O3".toList], samp := ["S1".toList], rows := [[0], [1], [0]] } = true ∧
+    guardB toyIO (fun (x : Text) => x) (fun s => s)
+      { obs := ["O1".toList], samp := ["S1".toList, "S2".toList], rows := [[0, 0]] } = true := by
+  decide
+
+/-- non-vacuity of the hierarchical pair: a two-level lineage through `sc_separated` and back -/
+example :
+    guardB toyIO fmtSc procSc
+      { obs := ["O1".toList, "O2".toList], samp := ["S1".toList], rows := [[1], [2]],
+        md := some [.list ["k__A".toList, "p__b c".toList], .list ["12".toList]],
+        headerKey := some "taxonomy".toList, headerValue := some "Consensus Lineage".toList } = true := by
+  decide
 
 end Biom.C03
